@@ -38,14 +38,16 @@ theorem num2str_lex (fd : Nat) (hfd : 1 ≤ fd) (n : Int) : DecLexWs true fd (nu
       generalize applySign (sgnOf n) (valOf 10 (P ++ F')) = W at hn'
       rw [hn', ← hlen, Int.pow_add, Int.mul_assoc, Int.mul_comm (10 ^ z) (10 ^ F'.length)]
 
-theorem DecLexWs.weaken {fd : Nat} {s : Bytes} {k : Int} (h : DecLexWs true fd s k) : DecLexWs false fd s k := by
-  obtain ⟨l, sg, ip, fr, r, point, h1, h2, h3, h4, h5, h6, h7, h8, h9, h10⟩ := h
-  exact ⟨l, sg, ip, fr, r, point, h1, h2, h3, h4, h5, h6, h7, h8, Or.inl (by simpa using h9), h10⟩
+theorem DecLexWs.weaken {fd : Nat} {s : Bytes} {k : Int} (nd : Bool) (h : DecLexWs true fd s k) : DecLexWs nd fd s k := by
+  cases nd
+  · obtain ⟨l, sg, ip, fr, r, point, h1, h2, h3, h4, h5, h6, h7, h8, h9, h10⟩ := h
+    exact ⟨l, sg, ip, fr, r, point, h1, h2, h3, h4, h5, h6, h7, h8, Or.inl (by simpa using h9), h10⟩
+  · exact h
 
 /-- `parse (print n) = n` for every mantissa in the int64 range and every fraction-digits value -/
-theorem parseDec64_num2str (fd : Nat) (hfd : 1 ≤ fd) (n : Int) (hlo : -(2 ^ 63) ≤ n) (hhi : n ≤ 2 ^ 63 - 1) :
-    parseDec64 fd (num2str fd n) = .ok n :=
-  (parseDec64_ok_iff fd hfd _ n).mpr ⟨(num2str_lex fd hfd n).weaken, hlo, hhi⟩
+theorem parseDec64_num2str (nd : Bool) (fd : Nat) (hfd : 1 ≤ fd) (n : Int) (hlo : -(2 ^ 63) ≤ n) (hhi : n ≤ 2 ^ 63 - 1) :
+    parseDec64With nd fd (num2str fd n) = .ok n :=
+  (parseDec64_ok_iff nd fd hfd _ n).mpr ⟨(num2str_lex fd hfd n).weaken nd, hlo, hhi⟩
 
 theorem num2str_canonical (fd : Nat) (hfd : 1 ≤ fd) (n : Int) : IsCanonDec (num2str fd n) := by
   by_cases hn : n = 0
@@ -74,22 +76,22 @@ theorem dec64_hints_ok_of (hints : Nat) : (checkHints hints "dec64").isSome = tr
   rw [h2] at h1
   rw [h1]; omega
 
-theorem storeDec64_accept_iff (fd : Nat) (hfd : 1 ≤ fd) (range : List (Int × Int)) (hints : Nat) (s : Bytes) (k : Int)
+theorem storeDec64_accept_iff (nd : Bool) (fd : Nat) (hfd : 1 ≤ fd) (range : List (Int × Int)) (hints : Nat) (s : Bytes) (k : Int)
     (hh : (checkHints hints "dec64").isSome = true) (hwf : PartsWF (-(2 ^ 63)) (2 ^ 63 - 1) range) :
-    storeDec64 fd range hints s = .ok k ↔ DecLexWs false fd s k ∧ -(2 ^ 63) ≤ k ∧ k ≤ 2 ^ 63 - 1 ∧ InParts range k := by
-  unfold storeDec64
+    storeDec64With nd fd range hints s = .ok k ↔ DecLexWs nd fd s k ∧ -(2 ^ 63) ≤ k ∧ k ≤ 2 ^ 63 - 1 ∧ InParts range k := by
+  unfold storeDec64With
   cases hc : checkHints hints "dec64" with
   | none => rw [hc] at hh; cases hh
   | some b =>
     simp only [dec64_range_signed]
-    cases hp : parseDec64 fd s with
+    cases hp : parseDec64With nd fd s with
     | error e =>
       simp only [reduceCtorEq, false_iff]
       rintro ⟨hl, hlo, hhi, _⟩
-      have := (parseDec64_ok_iff fd hfd s k).mpr ⟨hl, hlo, hhi⟩
+      have := (parseDec64_ok_iff nd fd hfd s k).mpr ⟨hl, hlo, hhi⟩
       rw [hp] at this; cases this
     | ok num =>
-      obtain ⟨hl, hlo, hhi⟩ := (parseDec64_ok_iff fd hfd s num).mp hp
+      obtain ⟨hl, hlo, hhi⟩ := (parseDec64_ok_iff nd fd hfd s num).mp hp
       simp only
       constructor
       · intro h
@@ -99,7 +101,7 @@ theorem storeDec64_accept_iff (fd : Nat) (hfd : 1 ≤ fd) (range : List (Int × 
           exact ⟨hl, hlo, hhi, (validateRange_signed_iff range num hwf).mp hv⟩
         · cases h
       · rintro ⟨hl', hlo', hhi', hin⟩
-        have := (parseDec64_ok_iff fd hfd s k).mpr ⟨hl', hlo', hhi'⟩
+        have := (parseDec64_ok_iff nd fd hfd s k).mpr ⟨hl', hlo', hhi'⟩
         rw [hp] at this; injection this with this; subst this
         rw [if_pos ((validateRange_signed_iff range num hwf).mpr hin)]
 
